@@ -1,18 +1,30 @@
 """C03 — forward results agree with NumPy in value, shape and dtype."""
-from checks.C11 import _replay as _dispatch_replay
+from checks.C11 import _replay as _dispatch_replay0
 from lib.checkdef import default_replay_cmd, run_property
+
+
+def _dispatch_replay(rep, r):
+    if r.name.startswith("C03.struct"):
+        from checks.C02 import replay_struct
+
+        _p, confirmed, detail = replay_struct(r)
+        path = rep.write_replay(r.name, dict(obligation=r.to_json(), solver_output=r.model, confirmed=confirmed, replay=detail))
+        return path, confirmed, detail
+    return _dispatch_replay0(rep, r)
 
 
 def run(tier, seed):
     return run_property(
         "C03", tier, seed, level="other",
-        deductive=[("c03_wrap", None), ("c03_wrappers", None), ("c_op", r"^C03\."), ("c11_dispatch", r"\[(bool|const|nodiff),.*(tensors_unwrapped|out_unwrapped|other_keywords|exactly_one_call|returns_callee_result)|^C11\.ufunc_call")],
+        deductive=[("c03_wrap", None), ("c03_wrappers", None), ("c_op", r"^C03\."), ("c02_struct", r"^C03\.struct"), ("c11_dispatch", r"\[(bool|const|nodiff),.*(tensors_unwrapped|out_unwrapped|other_keywords|exactly_one_call|returns_callee_result)|^C11\.ufunc_call")],
         replay=_dispatch_replay,
         bounded=[("api_bounded.py", ["--check", "C03"])],
         trusted=["NumPy itself is the oracle of the bounded part", "pyvc executor's model of keyword passing (**kwargs dicts, defaults)"],
         assumptions=[
             "deductive part (C03.kernel): UnaryUfunc/BinaryUfunc/Sequential.__call__ invoke the NumPy namesake exactly once with the caller's data/out/where/dtype/axis/keepdims/ddof "
             "and return its result unchanged; the casting of operands in Tensor._op and the >100 thin wrappers are covered by the bounded contract",
+            "C03.struct: the forward of the 13 rearrangement operations equals NumPy's definition of the same call (pyvc/idxdom.py axioms) in shape and in every "
+            "element, for symbolic extents / shifts and every axis argument of ranks 0..3 (thorough 0..4), incl. tuple axes of expand_dims",
             "options a MyGrad function does not accept (TypeError: unexpected keyword) are outside the property's domain ('all supported keyword options')",
         ],
         explanation="Kernel-forwarding contracts of the three generic op bases are discharged; agreement of values/shape/dtype with NumPy over the operand-kind x option product "
